@@ -99,6 +99,46 @@ def requirements_txt(sels: List[int], final_newline: bool, two: bool, dry_run: b
     return fin(ok)
 
 
+def requirements_txt_not_utf8(enc: int, two: bool, dry_run: bool) -> bool:
+    """A requirements.txt that is not UTF-8 (UTF-16 with a BOM, as PowerShell's `pip freeze >` writes it; latin-1 with
+    a non-ASCII comment): after DependencyManager.write the manifest is either byte-identical (the writer declined: no
+    ChangeSet) or still decodes - in its original encoding or UTF-8 - to all its original lines plus the new
+    requirements.  It is never truncated or left half-written.
+    post: _
+    """
+    if enc % 2 == 0:
+        codec, text = "utf-16", "requests==2.31.0\nflask\n"
+    else:
+        codec, text = "latin-1", "requests==2.31.0\n# caf\u00e9\nflask\n"
+    raw = text.encode(codec)
+    path = "/d/requirements.txt"
+    fs = FakeFS({path: raw})
+    rw.open = fs.open
+    store = PackageStore(type=FileType.REQ_TXT, file=Path(path), dependencies={"requests==2.31.0"}, py_versions=[])
+    deps = [DefusedXML, Security] if two else [DefusedXML]
+    try:
+        cs = DependencyManager(store, Path("/d")).write(deps, dry_run)
+    except Exception:  # noqa
+        return False
+    finally:
+        del rw.open
+    after = fs.files[path]
+    if after == raw:
+        return fin(cs is None or dry_run)
+    if cs is None or dry_run:
+        return False  # the manifest changed although the writer reported no update
+    data = after if isinstance(after, bytes) else after.encode("utf-8", "surrogateescape")
+    for c in (codec, "utf-8"):
+        try:
+            lines = data.decode(c).split("\n")
+        except Exception:  # noqa
+            continue
+        want = [l for l in text.split("\n") if l] + [str(d.requirement) for d in deps]
+        if [l for l in lines if l] == want:
+            return fin(True)
+    return False
+
+
 # ------------------------------------------------------------------ setup.cfg
 CFG_DEPS = ["requests", "flask>=2", "six"]
 
@@ -349,6 +389,8 @@ def warmup():
     try:
         requirements_txt([0, 1], False, True, False)
         requirements_txt([], True, False, False)
+        requirements_txt_not_utf8(0, True, False)
+        requirements_txt_not_utf8(1, False, True)
     except Exception:
         pass
     for sb in range(3):
@@ -400,6 +442,7 @@ SPEC = {
     "outside": ["pyproject.toml and setup.py text surgery", "CRLF manifests", "a second run adding nothing end to end (follows from already_declared_not_written given the store is re-parsed)"],
     "xh": [
         Xh("declared_any_spelling", 200, 400),
+        Xh("requirements_txt_not_utf8", 100, 200),
         Xh("requirements_txt", 300, 900),
         Xh("setup_cfg", 400, 1500),
         Xh("already_declared_not_written", 150, 300),
